@@ -20,7 +20,7 @@ static VALUE_TREE_LISTS_EXCLUDED: std::sync::atomic::AtomicBool = std::sync::ato
 pub const WAYS: [&str; 6] = ["str", "slice", "reader", "value", "value-ref", "c-api"];
 
 /// Feed JSON text into a fresh context through one of the entry points.
-pub fn feed<'s>(scheme: &'s Scheme, text: &'static str, way: usize) -> Result<Result<ExecutionContext<'static>, String>, String> {
+pub fn feed(arena: &mut Arena, scheme: &Scheme, text: &'static str, way: usize) -> Result<Result<ExecutionContext<'static>, String>, String> {
     let mut ec: ExecutionContext<'static> = ExecutionContext::new(scheme);
     let r = catch(|| match way {
         0 => ec.deserialize(&mut serde_json::Deserializer::from_str(text)).map_err(|e| e.to_string()),
@@ -32,7 +32,7 @@ pub fn feed<'s>(scheme: &'s Scheme, text: &'static str, way: usize) -> Result<Re
         }
         4 => {
             let v: Value = serde_json::from_str(text).map_err(|e| e.to_string())?;
-            let v: &'static Value = Box::leak(Box::new(v));
+            let v: &'static Value = arena.keep_value(v);
             ec.deserialize(v).map_err(|e: serde_json::Error| e.to_string())
         }
         _ => unreachable!(),
@@ -67,8 +67,7 @@ pub fn all_deep_typed(scheme: &Scheme, ec: &ExecutionContext<'_>) -> Result<(), 
 fn c_api_feed(scheme: &Scheme, text: &str) -> (bool, String) {
     // the C API on the same document (only called after the Rust entry points did not panic)
     let ws = wirefilter_ffi::Scheme::from(scheme.clone());
-    let ws: &'static wirefilter_ffi::Scheme = Box::leak(Box::new(ws));
-    let mut cx = wirefilter_ffi::wirefilter_create_execution_context(ws);
+    let mut cx = wirefilter_ffi::wirefilter_create_execution_context(&ws);
     let ok = wirefilter_ffi::wirefilter_deserialize_json_to_execution_context(&mut cx, text.as_ptr(), text.len());
     let ser = wirefilter_ffi::wirefilter_serialize_execution_context_to_json(&mut cx);
     let out = if ser.status == wirefilter_ffi::Status::Success {
@@ -157,8 +156,9 @@ fn expected_fields_json(w: &World) -> Value {
 }
 
 fn roundtrip_case(ch: &mut Choices<'_>, st: &mut Stats) -> CaseResult {
+    let mut arena = Arena::new();
     let (w, below) = gen_world(ch);
-    let scheme: &'static Scheme = Box::leak(Box::new(w.recipe.build()));
+    let scheme: &'static Scheme = arena.keep_scheme(w.recipe.build());
     let ec = w.recipe.make_ctx(scheme, &w.ctx, &w.lists);
     let show = || json!({"scheme": w.recipe.show(), "context": w.ctx.show(&w.recipe.fields), "lists": show_lists(&w.lists)});
     let text = catch(|| serde_json::to_string(&ec)).map_err(|p| Fail::new("serialize-panic", p, show()))?.map_err(|e| Fail::new("serialize-error", e.to_string(), show()))?;
@@ -173,7 +173,7 @@ fn roundtrip_case(ch: &mut Choices<'_>, st: &mut Stats) -> CaseResult {
     if got != want {
         return Err(Fail::new("context-json-mismatch", format!("serialised fields differ from the documented form\n got {got}\nwant {want}"), show()));
     }
-    let text: &'static str = Box::leak(text.into_boxed_str());
+    let text: &'static str = arena.keep_str(text);
     let value_tree_lists_known = has_lists;
     for way in 0..6 {
         st.eval();
@@ -191,7 +191,7 @@ fn roundtrip_case(ch: &mut Choices<'_>, st: &mut Stats) -> CaseResult {
             st.excluded();
             continue;
         }
-        let back = match feed(scheme, text, way) {
+        let back = match feed(&mut arena, scheme, text, way) {
             Err(p) => return Err(Fail::new("deserialize-panic", format!("[{}] {p}", WAYS[way]), show())),
             Ok(Err(e)) => return Err(Fail::new("roundtrip-rejected", format!("[{}] own serialisation rejected: {e}\n{text}", WAYS[way]), show())),
             Ok(Ok(c)) => c,
@@ -236,10 +236,11 @@ fn value_tree_probe(_ch: &mut Choices<'_>, st: &mut Stats) -> CaseResult {
     let mut r = Recipe::empty();
     r.fields.push(FieldSpec { name: "n".into(), ty: MType::Int, optional: true });
     r.lists.push((MType::Int, ListKind::Never));
-    let scheme: &'static Scheme = Box::leak(Box::new(r.build()));
+    let mut arena = Arena::new();
+    let scheme: &'static Scheme = arena.keep_scheme(r.build());
     let text = "{\"n\":1,\"$lists\":[{\"type\":\"Int\",\"data\":{}}]}";
     st.eval();
-    match feed(scheme, text, 3) {
+    match feed(&mut arena, scheme, text, 3) {
         Ok(Ok(_)) => Ok(()),
         Ok(Err(e)) => Err(Fail::new("value-tree-lists-key-order", format!("context JSON with a $lists section fed as a serde_json::Value tree is rejected: {e}"), json!({"json": text, "entry_point": "value"}))),
         Err(p) => Err(Fail::new("deserialize-panic", p, json!({"json": text}))),
@@ -334,7 +335,8 @@ fn mutated_case(ch: &mut Choices<'_>, st: &mut Stats) -> CaseResult {
     let (w, _) = gen_world(ch);
     let mut sel_ch = Choices::new(&sel);
     let ch = &mut sel_ch;
-    let scheme: &'static Scheme = Box::leak(Box::new(w.recipe.build()));
+    let mut arena = Arena::new();
+    let scheme: &'static Scheme = arena.keep_scheme(w.recipe.build());
     let ec = w.recipe.make_ctx(scheme, &w.ctx, &w.lists);
     let text = serde_json::to_string(&ec).unwrap();
     let mut doc: Value = serde_json::from_str(&text).unwrap();
@@ -439,23 +441,23 @@ fn mutated_case(ch: &mut Choices<'_>, st: &mut Stats) -> CaseResult {
                 if let Some(end) = text[pos..].find(|c| c == ',' || c == '}') {
                     let first = &text[1..pos + end];
                     if !first.contains("$lists") {
-                        return run_mutant(scheme, &format!("{{{first},{}", &text[1..]), false, false, st, &w);
+                        return run_mutant(&mut arena, scheme, &format!("{{{first},{}", &text[1..]), false, false, st, &w);
                     }
                 }
             }
             text.clone()
         }
     };
-    run_mutant(scheme, &mutated, definitely_invalid, nested, st, &w)
+    run_mutant(&mut arena, scheme, &mutated, definitely_invalid, nested, st, &w)
 }
 
-fn run_mutant(scheme: &'static Scheme, doc: &str, definitely_invalid: bool, nested: bool, st: &mut Stats, w: &World) -> CaseResult {
-    let text: &'static str = Box::leak(doc.to_string().into_boxed_str());
+fn run_mutant(arena: &mut Arena, scheme: &'static Scheme, doc: &str, definitely_invalid: bool, nested: bool, st: &mut Stats, w: &World) -> CaseResult {
+    let text: &'static str = arena.keep_str(doc.to_string());
     let show = || json!({"scheme": w.recipe.show(), "document": text});
     for way in 0..5 {
         st.eval();
         PARTIAL.with(|p| *p.borrow_mut() = None);
-        match feed(scheme, text, way) {
+        match feed(arena, scheme, text, way) {
             Err(p) => return Err(Fail::new("deserialize-panic", format!("[{}] {p}", WAYS[way]), show())),
             Ok(Err(_)) => {
                 if let Some(Err(m)) = PARTIAL.with(|p| p.borrow_mut().take()) {
